@@ -171,6 +171,10 @@ def slice_consts(ip, st, sl):
 def install_crc_tracking(ip, an):
     """ghost log of what has been fed to the decoder's own CRC field since it was last re-initialised:
     st.ghost['crc-feed'] = tuple of per-update byte lists (constants or ('sym', Lin)); None until an init is seen"""
+    if getattr(ip, "_crc_tracking_installed", False):
+        return          # one set of hooks per interpreter (several rule modules may share the analysis)
+    ip._crc_tracking_installed = True
+
     def is_self_crc(st, ref):
         root = st.ghost.get("dec-self")
         return isinstance(ref, VRef) and root is not None and ref.root == root and ref.steps[:1] == (("f", an.i_crc),)
